@@ -240,41 +240,52 @@ def takeDigits : Bytes → Bytes × Bytes
 
 def digitsVal (ds : Bytes) : Nat := ds.foldl (fun acc c => acc * 10 + (c - 48)) 0
 
+/-- an optional sign in front of the exponent's digits: (negative?, rest) -/
+def stripSign : Bytes → Bool × Bytes
+  | 45 :: x => (true, x)
+  | 43 :: x => (false, x)
+  | x => (false, x)
+
+/-- the exponent part that follows the mantissa (`e` / `E`, optional sign, digits, nothing else); the
+    empty rest is exponent 0; `none` = rejected by Rust -/
+def expOf : Bytes → Option Int
+  | [] => some 0
+  | c :: r =>
+    if c == 101 || c == 69 then
+      if (takeDigits (stripSign r).2).1.length = 0 || (takeDigits (stripSign r).2).2.length ≠ 0 then none
+      else some (if (stripSign r).1 then - (digitsVal (takeDigits (stripSign r).2).1 : Int)
+                 else (digitsVal (takeDigits (stripSign r).2).1 : Int))
+    else none
+
+/-- the fraction part: the digits after a `.`, and what follows them -/
+def fracOf : Bytes → Bytes × Bytes
+  | 46 :: r => takeDigits r
+  | r1 => ([], r1)
+
+/-- `inf` / `infinity` / `nan`, any letter case -/
+def isSpecialWord (s : Bytes) : Bool :=
+  s.map upperAscii == s2b "INF" || s.map upperAscii == s2b "INFINITY" || s.map upperAscii == s2b "NAN"
+
+/-- the correctly rounded bit pattern of `ip.fp × 10^ex` -/
+def decBits (ip fp : Bytes) (ex : Int) : Nat :=
+  let m := digitsVal (ip ++ fp)
+  let nd := ip.length + fp.length
+  let e10 : Int := ex - (fp.length : Int)
+  if m = 0 then 0
+  else if e10 > 400 then infBits
+  else if e10 + (nd : Int) < -400 then 0
+  else if e10 ≥ 0 then f64OfRat (m * 10 ^ e10.toNat) 1
+  else f64OfRat m (10 ^ (-e10).toNat)
+
 /-- the unsigned part of a float literal: `inf`/`infinity`/`nan` (any case) or decimal with
     optional fraction and exponent; `none` = rejected by Rust -/
 def parseF64Abs (s : Bytes) : Option Nat :=
-  let u := s.map upperAscii
-  if u == s2b "INF" || u == s2b "INFINITY" then some infBits
-  else if u == s2b "NAN" then some nanBits
-  else
-    let (ip, r1) := takeDigits s
-    let (fp, r2) : Bytes × Bytes := match r1 with
-      | 46 :: r => takeDigits r
-      | _ => ([], r1)
-    if ip.length + fp.length = 0 then none else
-    let expo : Option Int := match r2 with
-      | [] => some 0
-      | c :: r =>
-        if c == 101 || c == 69 then
-          let (neg, r') : Bool × Bytes := match r with
-            | 45 :: x => (true, x)
-            | 43 :: x => (false, x)
-            | x => (false, x)
-          let (ed, r'') := takeDigits r'
-          if ed.length = 0 || r''.length ≠ 0 then none
-          else some (if neg then - (digitsVal ed : Int) else (digitsVal ed : Int))
-        else none
-    match expo with
+  if s.map upperAscii == s2b "INF" || s.map upperAscii == s2b "INFINITY" then some infBits
+  else if s.map upperAscii == s2b "NAN" then some nanBits
+  else if (takeDigits s).1.length + (fracOf (takeDigits s).2).1.length = 0 then none
+  else match expOf (fracOf (takeDigits s).2).2 with
     | none => none
-    | some ex =>
-      let m := digitsVal (ip ++ fp)
-      let nd := ip.length + fp.length
-      let e10 : Int := ex - (fp.length : Int)
-      if m = 0 then some 0
-      else if e10 > 400 then some infBits
-      else if e10 + (nd : Int) < -400 then some 0
-      else if e10 ≥ 0 then some (f64OfRat (m * 10 ^ e10.toNat) 1)
-      else some (f64OfRat m (10 ^ (-e10).toNat))
+    | some ex => some (decBits (takeDigits s).1 (fracOf (takeDigits s).2).1 ex)
 
 /-- `str::parse::<f64>` → bit pattern -/
 def parseF64 : Bytes → Option Nat
